@@ -16,6 +16,8 @@ RULE = ('random core and IOAPI files (float and small-integer payloads, '
         'length-changing 1-D callables {diff, [::2], reversal, valid/same '
         'convolutions, cumsum} over 1-2 dimensions (2-dimension calls only '
         'with mutually commuting functions, called in both keyword orders); '
+        'single-dimension calls also through the string forms reduce_dim '
+        '(incl. median) and convolve_dim (valid/same/full); '
         'non-trivial = at least one variable has a named dimension of length '
         '>= 2; distinct = digest of (file spec, functions).')
 ASSUMPTIONS = [
